@@ -22,6 +22,12 @@ ops   c01 [cfg, R, W, classes_only]      lines of list(Segment.split_lines(conso
                                          render_lines: their final crop would mask an overflowing child)
       c09 [cfg, R, avail, classes_only]  [Measurement.get(console, r, avail), [lines at the maximum, lines at the minimum]]
       text_measure [s, fix]  /  text_at_max [s, fix, justify?, overflow?]
+      c09_hist [cfg, s0, edits, avail]   ONE Text instance: __rich_measure__ after every in-place edit (append, append_text,
+                                         append_tokens, pad, pad_left, pad_right, stylize, truncate, right_crop, plain
+                                         setter), then Measurement.get + renders at the maximum/minimum of the Text and of a
+                                         Panel.fit that was built (and measured once) BEFORE the edits.  In the functional
+                                         model measurement is a function of the current value; this op is the tie for any
+                                         memoisation inside the objects.
       fits_raw [cfg, R, W]               as c01, checked with plain fits_b W lines (no domain guard); used only by the
                                          known-finding witness corpus/C01_known/*.json -- no generator emits it
 cfg = [console width, fix_d20]; results carry their outcome class ([0, v] ok / [1, e] documented / [2, k] escape).
@@ -33,7 +39,7 @@ from common import s2t, t2s, DOC_ERRORS, CRASH_ERRORS
 import common
 
 OPS = {"c01": {"noshrink": False}, "c09": {}, "text_measure": {}, "text_at_max": {},
-       "fits_raw": {}}     # fits_raw: c01 with the UNGUARDED checker spec.fits; known-finding witnesses only, never generated
+       "c09_hist": {}, "fits_raw": {}}     # fits_raw: c01 with the UNGUARDED checker spec.fits; known-finding witnesses only, never generated
 
 # the model variant compared with the implementation: 1 = Text.__rich_measure__ splits lines at "\n" only
 # (fixes/C09_text_measure_lines.diff applied), 0 = rich 9.10.0 as found (str.splitlines)
@@ -52,9 +58,47 @@ OVERFLOW = ["fold", "crop", "ellipsis", "ignore"]
 
 
 # ---------------------------------------------------------------- generators
+_EDGES = [None]
+
+
+def width_edges():
+    """first / last code points of the ranges of rich/_cell_widths.py (read with ast from the tree under check) and the
+    single-code-point ranges: (width-2 characters, width-0 characters).  A lookup that is off by one at a range
+    boundary shows only on these.  Controls, whitespace, line separators and surrogates are left out."""
+    if _EDGES[0] is None:
+        import ast, os, re
+        rows = None
+        try:
+            with open(os.path.join(common.REPO, "rich", "_cell_widths.py"), encoding="utf-8") as f:
+                tree = ast.parse(f.read())
+            for node in tree.body:
+                if isinstance(node, ast.Assign) and any(getattr(t, "id", None) == "CELL_WIDTHS" for t in node.targets):
+                    rows = [tuple(r) for r in ast.literal_eval(node.value)]
+        except Exception:
+            rows = None
+        if not rows:
+            with open(os.path.join(common.VERIF, "coq", "gen", "CellWidthTable.v")) as f:
+                rows = [tuple(int(x.strip("() ")) for x in m) for m in
+                        re.findall(r"\((\(?-?\d+\)?), (\(?-?\d+\)?), (\(?-?\d+\)?)\)", f.read())]
+        wide, zero = [], []
+        for (a, b, w) in sorted(rows):
+            for cp in {a, b}:
+                if cp < 0x300 or 0xD800 <= cp <= 0xDFFF or cp > 0x10FFFF:
+                    continue
+                ch = chr(cp)
+                if ch.isspace() or ch in ODD_SEPS or ch in "\x08\x0b\x0c\r":
+                    continue
+                (wide if w == 2 else zero if w in (0, -1) else []).append(ch)
+        _EDGES[0] = (wide or list(WIDE), zero or list(ZERO))
+    return _EDGES[0]
+
+
 def rtext(rng, maxlen=12, nl=True, odd=False):
     n = rng.choice([0, 1, 2, 3, 5, 8, maxlen, maxlen])
-    pool = rng.choice([ASCII, ASCII, ASCII, WIDE, ASCII + WIDE, ASCII + WIDE + ZERO, ASCII + ZERO])
+    pool = rng.choice([ASCII, ASCII, ASCII, WIDE, ASCII + WIDE, ASCII + WIDE + ZERO, ASCII + ZERO, None, None])
+    if pool is None:       # range-boundary code points of the width table
+        wide, zero = width_edges()
+        pool = ASCII[:6] + "".join(rng.sample(wide, min(4, len(wide)))) + "".join(rng.sample(zero, min(2, len(zero))))
     s = "".join(rng.choice(pool) for _ in range(n))
     if nl and s and rng.random() < 0.35:
         for _ in range(rng.randint(1, 2)):
@@ -104,7 +148,9 @@ def gtable(rng, depth, budget):
     box = opt(rng, 0.85, lambda: rng.randrange(len(BOX_NAMES)))
     topts = [1 if box else 0, rng.randint(0, 1) if rng.random() < 0.4 else 1, rng.randint(0, 1), 1 if rng.random() < 0.3 else 0,
              1 if rng.random() < 0.3 else 0, rng.choice([0, 0, 0, 1, 2]), rpad4(rng) if rng.random() < 0.5 else [0, 1, 0, 1],
-             1 if rng.random() < 0.3 else 0, 0 if rng.random() < 0.3 else 1, 1 if rng.random() < 0.4 else 0, [], []]
+             1 if rng.random() < 0.3 else 0, 0 if rng.random() < 0.3 else 1, 1 if rng.random() < 0.4 else 0, [],
+             # Table(min_width=N): below, around and above the widths the table will be given
+             opt(rng, 0.2, lambda: rng.choice([rng.randint(1, 12), rng.randint(10, 40), rng.randint(30, 120)]))]
     cols = []
     strict = rng.random() < 0.85         # inside the C01 option domain
     for _ in range(ncol):
@@ -217,6 +263,20 @@ def generate(rng, tier):
     return cases
 
 
+def redit(rng):
+    """an in-place edit of a Text: [kind, payload] (see DrvLayout.apply_edit)"""
+    k = rng.choice([0, 0, 1, 7, 2, 3, 4, 5, 6, 6, 8, 9])
+    if k in (0, 1, 7, 9):
+        return [k, s2t(rtext(rng, rng.choice([3, 8, 20]), nl=rng.random() < 0.3))]
+    if k in (2, 3, 4):
+        return [k, rng.randint(1, 5)]
+    if k == 5:
+        return [k, 0]
+    if k == 6:
+        return [k, [rng.randint(1, 15), rng.randint(0, 1)]]
+    return [k, rng.randint(1, 4)]
+
+
 def generate_measure(rng, tier):
     """C09: Measurement.get at available widths 0..200 (also far below the content's needs), renders at the
     reported maximum / minimum, and the text measurement over every alphabet"""
@@ -231,6 +291,11 @@ def generate_measure(rng, tier):
         W = rwidth(rng, sm) if rng.random() < 0.6 else rng.randint(0, 200)
         avail = W if rng.random() < 0.7 else rng.randint(0, 200)
         cases.append(("c09", [[max(W, avail, 1), fx], t, avail, 0]))   # console width >= every width handed down
+    for _ in range(500 if tier == "quick" else 6000):
+        s0 = rtext(rng, rng.choice([4, 12, 30]))
+        edits = [redit(rng) for _ in range(rng.randint(1, 4))]
+        avail = rng.choice([rng.randint(1, 12), rng.randint(1, 60), 80, 200])
+        cases.append(("c09_hist", [[max(avail, 1), fx], s2t(s0), edits, avail]))
     for _ in range(1500 if tier == "quick" else 20000):
         s = rtext(rng, rng.choice([4, 12, 30]), odd=rng.random() < 0.3)
         cases.append(("text_measure", [s2t(s), fx]))
@@ -400,6 +465,30 @@ def known_pbar_group(op, arg):
         return False
 
 
+def has_column_min_width(t):
+    k = t[0]
+    if k == 10:
+        if any(c[6] or c[5] for c in t[1][4]):
+            return True
+        return any(has_column_min_width(c) for row in t[2] for c in row)
+    if k in (1, 2, 3, 4, 5, 13, 14):
+        return has_column_min_width(t[1])
+    if k in (6, 11):
+        return any(has_column_min_width(c) for c in t[1])
+    if k == 12:
+        return has_column_min_width(t[1]) or any(has_column_min_width(c) for c in t[2])
+    return False
+
+
+def known_col_minw(op, arg):
+    """matcher for known_findings.json (C01-column-min-width-reimposed): the unguarded op on a tree holding a table with
+    a column width / min_width"""
+    try:
+        return op == "fits_raw" and has_column_min_width(arg[1])
+    except Exception:
+        return False
+
+
 def impl(op, arg):
     if op == "c01":
         cfg, t, W, co = arg
@@ -419,6 +508,47 @@ def impl(op, arg):
         mn, mx = m[1]
         return [[0, []] if co else m,
                 [outcome(lambda: lines_at(con, build(t), mx), co), outcome(lambda: lines_at(con, build(t), mn), co)]]
+    if op == "c09_hist":
+        from rich.measure import Measurement
+        from rich.text import Text
+        from rich.panel import Panel
+        from rich import box as rbox
+        cfg, s0, edits, avail = arg
+        con = console(cfg[0])
+        tx = Text(t2s(s0))
+        pn = Panel(tx, box=rbox.SQUARE, expand=False)
+        Measurement.get(con, pn, avail)          # measure the enclosing tree once before any edit
+        steps = [[s2t(tx.plain), list(tx.__rich_measure__(con, avail))]]
+        for k, p in edits:
+            if k == 0:
+                tx.append(t2s(p))
+            elif k == 1:
+                tx.append_text(Text(t2s(p)))
+            elif k == 7:
+                tx.append_tokens([(t2s(p), None)])
+            elif k == 2:
+                tx.pad(p)
+            elif k == 3:
+                tx.pad_left(p)
+            elif k == 4:
+                tx.pad_right(p)
+            elif k == 5:
+                tx.stylize("bold", 0, 2)
+            elif k == 6:
+                tx.truncate(p[0], overflow="crop", pad=bool(p[1]))
+            elif k == 8:
+                tx.right_crop(p)
+            else:
+                tx.plain = t2s(p)
+            steps.append([s2t(tx.plain), list(tx.__rich_measure__(con, avail))])
+
+        def obs(r):
+            m = outcome(lambda: list(Measurement.get(con, r, avail)))
+            if m[0] != 0:
+                return [m, []]
+            mn, mx = m[1]
+            return [m, [outcome(lambda: lines_at(con, r, mx)), outcome(lambda: lines_at(con, r, mn))]]
+        return [steps, obs(tx), obs(pn)]
     if op == "text_measure":
         from rich.measure import Measurement
         from rich.text import Text
@@ -454,6 +584,24 @@ def spec_cases(op, arg, out):
                 res.append(("spec.meas_bounds", [avail, m[1]]))
             if rest and rest[0][0] == 0 and rest[1][0] == 0:
                 res.append(("spec.meas_sound_dom", [t, m[1], rest[0][1], rest[1][1]]))
+    if op == "c09_hist":
+        steps, otx, opn = out
+        fx = arg[0][1]
+        for plain, m in steps:        # after EVERY step: minimum = widest word, maximum = widest line of the current value
+            if 9 not in plain and fx:
+                res.append(("spec.text_meas", [plain, m]))
+        final = steps[-1][0]
+        ttree = [0, final, [], [], []]
+        ptree = [2, ttree, [[3, 1, 0, 0], [], 1, 0, [], [0, 1, 0, 1]]]
+        for tree, o in ((ttree, otx), (ptree, opn)):
+            m, rest = o
+            if m[0] == 0:
+                res.append(("spec.meas_bounds", [arg[3], m[1]]))
+                if rest and rest[0][0] == 0 and rest[1][0] == 0:
+                    res.append(("spec.meas_sound_dom", [tree, m[1], rest[0][1], rest[1][1]]))
+        m, rest = otx
+        if m[0] == 0 and 9 not in final and fx and m[1][1] >= 1 and m[1][1] == steps[-1][1][1] and rest and rest[0][0] == 0:
+            res.append(("spec.not_wrapped", [final, rest[0][1]]))
     if op == "text_measure":
         s = t2s(arg[0])
         if "\t" not in s and (arg[1] or not any(c in s for c in ODD_SEPS)):
